@@ -89,7 +89,9 @@ def oracle_core(pid, case, accepted, set_ok, set_errs, solve_errs, calls, sig=No
                 if unused and accepted:
                     out_msgs.append("unused direct items %s yet accepted" % sorted(unused))
         elif pid == "C10":
-            if not miss and not unused and not needs and not accepted:
+            seen_t, _, _ = spec.needed(tree, given, out)
+            bad_vals = [v["id"] for x in spec.all_sets(tree) for v in x["values"] if v.get("unexported") and v["out"] in seen_t]
+            if not miss and not unused and not needs and not bad_vals and not accepted:
                 out_msgs.append("well-formed program rejected: %s" % (set_errs + solve_errs + list(inject_errs)))
         elif pid == "C09":
             dup_params = [p["id"] for x in spec.all_sets(tree) for p in x["providers"] if len(set(p["args"])) != len(p["args"])]
